@@ -290,6 +290,28 @@ def drive(ctx, exe, cases, tag, procs):
     return [by[c['id']] for c in cases]
 
 
+def selftest(ctx, lines):
+    """binding self-test: doctored copies of accepted events must be rejected by TLC with the right clause"""
+    base = next((l for l in lines if l['api'] == 'Bytes' and l['outcome'] == 'err' and l['small']), None)
+    if base is None:
+        raise vlib.Infra('self-test: no small failing Bytes call recorded')
+    a = dict(base, outcome='panic')
+    b = dict(base, cpu_us=250000 + 5 * base['n'] + 1)
+    c = dict(base, alloc=46875 + (75 * base['n']) // 128 + 1, stack=0)      # KiB: one over the budget
+    d = dict(base, ret_sha='0' * 40)
+    e = dict(base, ret=(base['ret'][:-1] + [(base['ret'][-1] + 1) % 256]) if base['ret'] else [1])
+    f = dict(base, outcome='crash')
+    acc, rej = vlib.tlc_trace(ctx, 'C10Trace', 'C10Trace.cfg', [a, b, c, d, e, f, base])
+    got = collections.defaultdict(set)
+    for pos, w in rej:
+        got[pos].add(w)
+    ok = got[0] == {'NoPanic'} and got[1] == {'WithinBudget'} and got[2] == {'WithinBudget'} and got[3] == {'ErrGivesOriginal'} and \
+        got[4] == {'ErrGivesOriginal'} and got[5] == {'NoPanic'} and not got[6]
+    if not ok:
+        raise vlib.Infra('binding self-test failed: %s' % dict(got))
+    ctx.coverage['binding_selftest'] = 'doctored events rejected: outcome panic/crash -> NoPanic; cpu / alloc over budget -> WithinBudget; ret_sha / ret byte changed -> ErrGivesOriginal'
+
+
 def describe(c, e, whys):
     full = bytes(c.get('pre', [])) * min(c.get('depth', 0), 3) + (bytes(c['in']) if 'in' in c else b'<file %s>' % c['file'].encode()) + \
         bytes(c.get('post', [])) * min(c.get('depth', 0), 3)
@@ -427,6 +449,8 @@ def run(ctx):
     why = collections.defaultdict(list)
     for pos, w in rejects:
         why[pos].append(w)
+    if not only_pinned:
+        selftest(ctx, lines)
     # every rejected call is re-run in a fresh driver process, one call at a time, and re-validated; a budget rejection must
     # repeat in up to three fresh runs unless the call is clearly (2x) over the CPU budget
     bad = sorted(why)
